@@ -53,6 +53,7 @@ type report struct {
 	CLI         []string          `json:"cli_redirected"` // process-global facilities redirected in cmd/php-parser
 	CLIMain     bool              `json:"cli_main"`       // func main found and exported as ZZMain
 	SyncLib     int               `json:"sync_lib"`       // library files importing sync or sync/atomic
+	UnsafeFiles []string          `json:"unsafe_files"`   // files importing unsafe, or using reflect.SliceHeader / StringHeader
 	// places where DefaultBlockSize is used inside an expression (not passed on
 	// as it is): small knob values could then yield sizes the tree never meets
 	KnobEntangled []string `json:"knob_entangled"`
@@ -512,6 +513,27 @@ func processFile(root, path string, isCmd bool) error {
 		return true
 	})
 
+	// files that can break memory safety
+	for _, im := range f.Imports {
+		if im.Path.Value == `"unsafe"` {
+			rep.UnsafeFiles = append(rep.UnsafeFiles, rel)
+		}
+		if im.Path.Value == `"reflect"` {
+			rn := importName(im)
+			hdr := false
+			ast.Inspect(f, func(n ast.Node) bool {
+				if se, ok := n.(*ast.SelectorExpr); ok {
+					if id, ok := se.X.(*ast.Ident); ok && id.Name == rn && (se.Sel.Name == "SliceHeader" || se.Sel.Name == "StringHeader") {
+						hdr = true
+					}
+				}
+				return true
+			})
+			if hdr {
+				rep.UnsafeFiles = append(rep.UnsafeFiles, rel)
+			}
+		}
+	}
 	// "sync" -> zzsimsync ; record chan ops and go statements
 	for _, im := range f.Imports {
 		if im.Path.Value == `"sync"` || im.Path.Value == `"sync/atomic"` {
